@@ -396,7 +396,7 @@ class C16Check(object):
                 out.events.append(["unexpected", traceback.format_exc(limit=4)[-600:]])
                 raise
             return
-        out.events.append(["assembled", label, mode, list(first.shape), rng.array_digest(first)])
+        out.events.append(["assembled", label, mode, list(first.shape), rng.array_digest(np.round(np.asarray(first, dtype=np.complex128), 9) + 0.0)])
         if np.iscomplexobj(first):
             out.probe("complex_result")
         for nm, sp in (("trial", case["trial"]), ("test", case["test"])):
